@@ -30,8 +30,12 @@ static int ref_size(const unsigned char* s, int n, int64_t* val) {
   if (p >= m) return 2;
   if (b[p] == '+' || b[p] == '-') return 2;
   unsigned __int128 total = 0; int overflow = 0;
+  int first_term = 1;
   while (p < m) {
     uint64_t ip = 0, fp = 0, fden = 1; int nd = 0, nf = 0;
+    /* a sign in front of a later term ("1t+0"): the documentation does not say whether a size is a signed sum; not judged */
+    if (!first_term && p < m && (b[p] == '+' || b[p] == '-')) { unsure = 1; p++; }
+    first_term = 0;
     while (p < m && b[p] >= '0' && b[p] <= '9') { ip = ip * 10 + (b[p] - '0'); nd++; p++; }
     if (p < m && b[p] == '.') { p++; while (p < m && b[p] >= '0' && b[p] <= '9') { fp = fp * 10 + (b[p] - '0'); fden *= 10; nf++; p++; } }
     if (nd + nf == 0) return 0;          /* no number where one is required (covers nan / inf / stray letters / lone '.') */
